@@ -55,7 +55,7 @@ func (c *Ctx) counterDeliveryMethods() map[*types.Func]bool {
 }
 
 func checkC01(c *Ctx) {
-	c.Explanation = "Decides the structure of the counter delta protocol (also used by histogram bucket counters): (O1) curr/prev atomic-only; (O2) every function that writes prev has the shape p:=Load(prev); c:=Load(curr) (in that order); CAS(prev,p,c) with retry; result c-p on the success edge - the one-step 'subtract and advance' that makes concurrent report passes hand every increment to exactly one of them and keeps deltas non-negative; (O3) every caller of the delta function delivers that value exactly once on the delta!=0 edge, for every histogram type; (O4) Inc is one atomic add of its argument and nothing else writes curr; (O6) creation appends to the slice the cached pass iterates; (O7) both scope passes visit every counter/histogram once. Paper argument: successive values of prev telescope, so the sum of delivered deltas equals the final prev = final curr after a quiescent pass."
+	c.Explanation = "Decides the structure of the counter delta protocol (also used by histogram bucket counters): (O1) curr/prev atomic-only; (O2) every function that writes prev has the shape p:=Load(prev); c:=Load(curr) (in that order); CAS(prev,p,c) with retry; result c-p on the success edge - the one-step 'subtract and advance' that makes concurrent report passes hand every increment to exactly one of them and keeps deltas non-negative; (O3) every caller of the delta function delivers that value exactly once on the delta!=0 edge, for every histogram type; (O4) Inc is one atomic add of its argument and nothing else writes curr; (O6) creation appends to the slice the cached pass iterates; (O7/O8) both scope passes visit every counter/histogram once and the registry passes visit every shard and scope; (O9) nothing is cleared or unregistered before it was reported (flag sampled before the report, report before clear, identity-checked removal, purge only from Close after the final report - shared with C07/C08); (O10) racing first users get one counter (double-checked creation, shared with C09). Paper argument: successive values of prev telescope, so the sum of delivered deltas equals the final prev = final curr after a quiescent pass."
 	c.NotDecided = []string{"the totals as numbers", "that every scope is visited by a pass (C07/C08)"}
 	c.Assumptions = append(c.Assumptions, "Go atomics are sequentially consistent")
 
@@ -260,7 +260,7 @@ func checkC01(c *Ctx) {
 		}
 		_ = hType
 	}
-	c.floor("O3 delivery", nSites, 4)
+	c.floor("O3 delivery", nSites, 2)
 
 	// every counter delivery in package tally must carry a delta taken in the same function
 	for _, fn := range c.funcsOfPkg("") {
@@ -299,6 +299,20 @@ func checkC01(c *Ctx) {
 	// O7
 	c.checkScopePassCoverage("O7 pass-coverage", "counters", "countersSlice", "counter")
 	c.checkScopePassCoverage("O7 pass-coverage", "histograms", "histogramsSlice", "histogram")
+	// O9: nothing recorded is lost around Close / re-acquire (shared with C07 O1-O3 and C08 O3),
+	// O10: racing first users get one counter (shared with C09 O1)
+	if fM, clr := c.field("", "scopeBucket", "s"), c.fn("", "scope", "clearMetrics"); fM != nil && clr != nil {
+		eng := c.newLockEngine()
+		c.checkReportBeforeClear("O9 flag-before-report", "O9 report-before-clear")
+		c.checkGapSafeDeletes("O9 lock-gap", fM, eng, clr)
+		c.checkPurgeOnlyFromClose("O9 purge-only-from-close")
+		c.checkDoubleChecked("O10 double-checked", eng)
+	} else {
+		c.missing("O9 report-before-clear", "tally.scopeBucket.s / scope.clearMetrics")
+	}
+	// O8: the registry passes visit every shard and every scope
+	c.checkRegistryPassCoverage("O8 registry-coverage", "Report", "report")
+	c.checkRegistryPassCoverage("O8 registry-coverage", "CachedReport", "cachedReport")
 }
 
 // checkDeltaShape checks shape S1 of a function that writes counter.prev.
